@@ -164,3 +164,105 @@ func VerifC01Wire() {
 	vsymCover("wire-fresh-compared")
 	vsymAssert(c1Tagged(oc.send("z LOGOUT"), "z", "OK"), "LOGOUT is answered")
 }
+
+// verifRawConn additionally keeps every write as it was made (literals contain line breaks).
+type verifRawConn struct {
+	verifPipeConn
+	raw []string
+}
+
+func (c *verifRawConn) Write(b []byte) (int, error) {
+	c.raw = append(c.raw, string(b))
+	return c.verifPipeConn.Write(b)
+}
+
+// c13Literal extracts the literal that follows "<item> {n}\r\n" in a FETCH response as a client does: it reads n
+// from the braces and takes the next n bytes.
+func c13Literal(resp, item string) (string, bool) {
+	i := strings.Index(resp, item+" {")
+	if i < 0 {
+		return "", false
+	}
+	rest := resp[i+len(item)+2:]
+	j := strings.Index(rest, "}\r\n")
+	if j < 0 {
+		return "", false
+	}
+	n := 0
+	for _, c := range rest[:j] {
+		if c < '0' || c > '9' {
+			return "", false
+		}
+		n = n*10 + int(c-'0')
+	}
+	body := rest[j+3:]
+	if n > len(body) {
+		return "", false
+	}
+	return body[:n], true
+}
+
+// VerifC13Wire: APPEND and FETCH on the wire through the real session loop: a message with g arbitrary body bytes is
+// appended with a synchronising literal (the continuation request is awaited), the mailbox selected, and
+// BODY.PEEK[] / BODY.PEEK[HEADER] / BODY.PEEK[TEXT] / RFC822.SIZE / a partial are fetched: read the way a client reads
+// a response ({n} then n bytes) they are exactly the bytes that were appended (with the server's internal-ID header
+// line as the only addition, in front of the first header field).
+func VerifC13Wire() {
+	g := vsymParam("g")
+	head := "To: a@b.c\r\nFrom: d@e.f\r\nDate: Mon, 7 Feb 1994 21:52:25 -0800\r\nSubject: s\r\n\r\n"
+	body := vsymBytes("body", g)
+	lit := append([]byte(head), body...)
+	be := backend.VerifNewBackendUsers()
+	conn := &verifRawConn{verifPipeConn: verifPipeConn{in: make(chan []byte, 4)}}
+	s := New(conn, be, 1, version.Info{}, nil, make(chan events.Event, 256), 0, nil)
+	go func() { _ = s.serve(context.Background()) }()
+	vsymAssert(c1Tagged(conn.send("l LOGIN alice pw1"), "l", "OK"), "LOGIN is answered OK")
+	num := func(n int) string {
+		if n == 0 {
+			return "0"
+		}
+		var d []byte
+		for n > 0 {
+			d = append([]byte{byte('0' + n%10)}, d...)
+			n /= 10
+		}
+		return string(d)
+	}
+	cont := conn.send("a APPEND INBOX {" + num(len(lit)) + "}")
+	vsymAssert(len(cont) == 1 && strings.HasPrefix(cont[0], "+"), "a synchronising literal is answered by a continuation request")
+	start := len(conn.lines)
+	conn.in <- append(append([]byte(nil), lit...), '\r', '\n')
+	vsymSched()
+	vsymAssert(c1Tagged(conn.lines[start:], "a", "OK"), "APPEND is answered OK")
+	vsymAssert(c1Tagged(conn.send("s SELECT INBOX"), "s", "OK"), "SELECT is answered OK")
+	r0 := len(conn.raw)
+	vsymAssert(c1Tagged(conn.send("f FETCH 2 (RFC822.SIZE BODY.PEEK[] BODY.PEEK[HEADER] BODY.PEEK[TEXT] BODY.PEEK[]<3.5>)"), "f", "OK"), "FETCH is answered OK")
+	resp := strings.Join(conn.raw[r0:], "")
+	vsymCover("fetched")
+	full, ok := c13Literal(resp, "BODY[]")
+	vsymAssert(ok, "BODY[] is returned as a literal whose announced length is available")
+	if !ok {
+		return
+	}
+	// the only change the server makes: its internal-ID header line in front of the first header field
+	vsymAssert(strings.HasSuffix(full, string(lit)), "BODY[] ends with exactly the appended bytes")
+	prefix := full[:len(full)-len(lit)]
+	vsymAssert(prefix == "" || (strings.HasPrefix(prefix, "X-Pm-Gluon-Id: ") && strings.HasSuffix(prefix, "\r\n") && strings.Count(prefix, "\n") == 1), "the only addition is one internal-ID header line")
+	hdr, ok1 := c13Literal(resp, "BODY[HEADER]")
+	txt, ok2 := c13Literal(resp, "BODY[TEXT]")
+	vsymAssert(ok1 && ok2, "BODY[HEADER] and BODY[TEXT] are returned")
+	if ok1 && ok2 {
+		vsymAssert(hdr+txt == full, "BODY[HEADER] followed by BODY[TEXT] is BODY[]")
+		vsymAssert(txt == string(body), "BODY[TEXT] is exactly the appended body")
+	}
+	part, ok3 := c13Literal(resp, "BODY[]<3>")
+	vsymAssert(ok3, "the partial is returned")
+	if ok3 {
+		hi := 8
+		if hi > len(full) {
+			hi = len(full)
+		}
+		vsymAssert(part == full[3:hi], "BODY[]<3.5> is bytes 3..7 of BODY[]")
+	}
+	vsymAssert(strings.Contains(resp, "RFC822.SIZE "+num(len(full))+" ") || strings.Contains(resp, "RFC822.SIZE "+num(len(full))+")"), "RFC822.SIZE is the length of BODY[]")
+}
